@@ -14,7 +14,7 @@ hooks=$(cargo build --offline -p rasn-compiler --features verif-hooks 2>&1 | gre
 # where does the demo go?
 loc=rasn-compiler-tests/tests; pkg="-p rasn-compiler-tests"
 if grep -q "rasn-compiler/tests/demo.rs" $SRC/NOTES.md 2>/dev/null && ! grep -q "rasn-compiler-tests/tests/demo.rs" $SRC/NOTES.md; then loc=rasn-compiler/tests; pkg="-p rasn-compiler --features cli"; fi
-cp $SRC/demo.rs $loc/demo.rs
+mkdir -p $loc; cp $SRC/demo.rs $loc/demo.rs
 with=$(cargo test --offline $pkg --test demo 2>&1 | grep -E "^test result|error: could not compile|^error" | head -1)
 git apply -R $SRC/patch.diff
 clean=$(cargo test --offline $pkg --test demo 2>&1 | grep -E "^test result|error: could not compile|^error" | head -1)
